@@ -41,18 +41,43 @@ MIN_INSTANCES = 25
 def is_occupied_rule(ctx: Ctx, rule: str) -> None:
     fref = f"{NODE}:TestNode.is_occupied"
     fn = ctx.repo.func(fref)
-    views = function_views(ctx, fref, None, roles=["worker"])
-    ok = len(views) == 1 and views[0].path.exit == "return"
-    text = None
-    if ok:
-        v = views[0]
-        c = v.canon(v.path.exit_node.value, len(v.steps))
-        text = ast.unparse(c)
-        want = ("self.is_started(worker, max(self.params.get_numeric('max_concurrent_tries', "
-                "self.params.get_numeric('max_tries', 1)), 1))")
-        ok = text == want
-    ctx.record(rule, "PROV", fref, "is_occupied(worker) = is_started(worker, max(max_concurrent_tries (default max_tries, default 1), 1))",
-               ok, {"extracted": text}, "" if ok else f"the occupation threshold changed: {text}")
+    ctx.touch(fref)
+    from .. import semtab
+
+    wname = fn.params()[1]
+    rows = semtab.function_table(fn.node, rename={wname: "worker"})
+    MT = "self.params.get_numeric('max_tries', 1)"
+    MCT = f"self.params.get_numeric('max_concurrent_tries', {MT})"
+    shape_bad, left_bad, texts = "", "", []
+    for prem, (kind, val, _f, _e, _i) in rows:
+        texts.append(f"{norm.show(prem)[:80]} -> {val}")
+        e = ast.parse(val, mode="eval").body if kind == "return" and val else None
+        thr = None
+        if isinstance(e, ast.Call) and ast.unparse(e.func) == "self.is_started" and len(e.args) == 2 and ast.unparse(e.args[0]) == "worker":
+            t = e.args[1]
+            if isinstance(t, ast.Call) and ast.unparse(t.func) == "max" and len(t.args) == 2 and any(isinstance(a, ast.Constant) and a.value == 1 for a in t.args):
+                thr = next(a for a in t.args if not (isinstance(a, ast.Constant) and a.value == 1))
+        if thr is None or MCT not in ast.unparse(thr):
+            shape_bad = shape_bad or f"the occupation threshold changed: {val}"
+            continue
+        # tries left: min(<re-entrancy>, max_tries - <number of finished results>) unless the re-entrancy was raised above max_tries on purpose
+        bounded = False
+        for m in ast.walk(thr):
+            if isinstance(m, ast.Call) and ast.unparse(m.func) == "min":
+                for a in m.args:
+                    if isinstance(a, ast.BinOp) and isinstance(a.op, ast.Sub) and ast.unparse(a.left) == MT and "len(" in ast.unparse(a.right) and "results" in ast.unparse(a.right):
+                        bounded = True
+        raised = norm.implies(prem, norm.neg(norm.formula(ast.parse(f"{MCT} <= {MT}", mode="eval").body)))
+        if not bounded and not raised:
+            left_bad = left_bad or ("a worker is admitted to a node while fewer than max_concurrent_tries (default max_tries) workers execute it, whether or not a try is left for it: "
+                                    "with the last try in flight elsewhere the newcomer is let in, has nothing to run (the in-flight result counts as a spent try), "
+                                    "treats the node as done and runs its dependants before the setup ever passed")
+    if not rows:
+        shape_bad = "no path through is_occupied"
+    ctx.record(rule, "PROV", fref, "is_occupied(worker) = is_started(worker, max(E, 1)), E built from max_concurrent_tries (default max_tries, default 1)",
+               not shape_bad, {"rows": texts}, shape_bad)
+    ctx.record(rule + "t", "GUARD", fref, "the re-entrancy is bounded by the tries not yet spent (min(re-entrancy, max_tries - finished results)) unless it was raised above max_tries",
+               not left_bad and not shape_bad, {"rows": texts}, left_bad or shape_bad)
     # is_started reads the markers of the node and of every bridged copy
     fref2 = f"{NODE}:TestNode.shared_started_workers"
     fn2 = ctx.repo.func(fref2)
